@@ -326,6 +326,7 @@ func init() {
 		ruleIfaceEq(c, r, c.funcsInScope(func(s string) bool { return strings.HasPrefix(s, "gnmidiff/") }, []string{"gnmidiff"}))
 		ruleFloatFmt(c, r, c.funcsInScope(func(s string) bool { return s == "ygot/render.go" || strings.HasPrefix(s, "gnmidiff/") }, libPkgs))
 		ruleGnmidiffRoot(c, r)
+		rulePathPrefixBoundary(c, r)
 	})
 }
 
@@ -441,5 +442,6 @@ func init() {
 		ruleSetToNotifs(c, r)
 		ruleIntentNormal(c, r)
 		rulePathFmtOwner(c, r, libPkgs, 20)
+		rulePathPrefixBoundary(c, r)
 	})
 }
